@@ -388,13 +388,12 @@ func c08Extra(e *Env, lp *vk.ListenerPool, code string, note func(string)) {
 				e.R.Inconcl(err.Error())
 				return
 			}
-			ql, err := quictransport.ListenWithConfig(context.Background(), udp, vk.Quiet, vk.QUICConfig(true, 5*time.Second))
+			_, tr, err := vk.ListenApp(udp, vk.QUICConfig(true, 5*time.Second))
 			if err != nil {
 				udp.Close()
 				e.R.Inconcl(err.Error())
 				return
 			}
-			tr := transferquic.NewListener(ql, vk.Quiet)
 			type res struct {
 				n   int
 				err error
@@ -493,7 +492,7 @@ func c08Extra(e *Env, lp *vk.ListenerPool, code string, note func(string)) {
 				e.R.Inconcl(err.Error())
 				return
 			}
-			ql, err := quictransport.ListenWithConfig(context.Background(), udp, vk.Quiet, vk.QUICConfig(true, 5*time.Second))
+			ql, _, err := vk.ListenApp(udp, vk.QUICConfig(true, 5*time.Second))
 			if err != nil {
 				udp.Close()
 				e.R.Inconcl(err.Error())
